@@ -31,6 +31,6 @@ def seeded(seed, n):
 
 def run(ctx, verdict):
     ec.family(ctx, verdict, "rdp", nontrivial=lambda c: len(c["pts"]) >= 3)
-    cases = seeded(ctx.seed, 400 if ctx.quick else 5000)
+    cases = seeded(ctx.seed, 250 if ctx.quick else 5000)
     vlib.note_cases(ctx, cases, nontrivial=lambda c: len(c["pts"]) >= 3)
     ec.pipe("rdp")(ctx, verdict, cases)
